@@ -26,6 +26,8 @@ def lib():
         handle.vshim_disarm.restype = None
         handle.vshim_count.restype = ctypes.c_long
         handle.vshim_fired.restype = ctypes.c_long
+        handle.vshim_set_signal.argtypes = [ctypes.c_int]
+        handle.vshim_set_signal.restype = None
         handle.vshim_log.argtypes = [ctypes.c_long, ctypes.c_char_p, ctypes.c_int]
         handle.vshim_log.restype = ctypes.c_int
         _LIB = handle
@@ -38,8 +40,10 @@ def available():
     return lib() is not None
 
 
-def arm(prefix, at=-1, kind=None):
+def arm(prefix, at=-1, kind=None, sig=None):
     lib().vshim_arm(prefix.encode(), -1 if at is None else at, KINDS.get(kind, 0))
+    if sig is not None:
+        lib().vshim_set_signal(int(sig))
 
 
 def disarm():
